@@ -35,6 +35,9 @@ type Case struct {
 	J   []int   `json:"j"`
 	M   int     `json:"m"`
 	Mul int     `json:"mul"`
+	// anisotropic copy: x is stretched by 2^Ax, y by 2^Ay on top of the above (at most one of them > 0)
+	Ax int `json:"ax"`
+	Ay int `json:"ay"`
 }
 
 type line struct {
@@ -48,28 +51,30 @@ type line struct {
 	Exact bool    `json:"exact"`
 	Wf    bool    `json:"wf"`
 	Tris  [][]int `json:"tris"`
+	U     int     `json:"u"` // 4^Ax
+	V     int     `json:"v"` // 4^Ay
 }
 
-func (c Case) to(lat, j int) (float64, error) {
+func (c Case) to(lat, j, stretch int) (float64, error) {
 	base := (float64(j)*math.Ldexp(1, c.M) + float64(lat)) * float64(c.Mul)
 	if math.Abs(base) >= math.Ldexp(1, 52) {
 		return 0, fmt.Errorf("offset %d*2^%d times %d leaves no room for the lattice", j, c.M, c.Mul)
 	}
-	return math.Ldexp(base, c.K), nil
+	return math.Ldexp(base, c.K+stretch), nil
 }
 
 // from maps a real coordinate back to the lattice; ok is false when it is not
 // the exact image of an integer.
-func (c Case) from(x float64, j int) (int, bool) {
+func (c Case) from(x float64, j, stretch int) (int, bool) {
 	if math.IsNaN(x) || math.IsInf(x, 0) {
 		return 0, false
 	}
-	lat := math.Ldexp(x, -c.K)/float64(c.Mul) - float64(j)*math.Ldexp(1, c.M)
+	lat := math.Ldexp(x, -c.K-stretch)/float64(c.Mul) - float64(j)*math.Ldexp(1, c.M)
 	r := math.Round(lat)
 	if r != lat || math.Abs(r) > 1e6 {
 		return 0, false
 	}
-	back, err := c.to(int(r), j)
+	back, err := c.to(int(r), j, stretch)
 	return int(r), err == nil && back == x
 }
 
@@ -80,14 +85,17 @@ func runOne(c Case) (line, error) {
 	if c.Mul == 0 {
 		c.Mul = 1
 	}
-	ln := line{K: "dt", Case: c.Id, N: len(c.Pts), Pts: c.Pts, Pos: [][]int{}, Tris: [][]int{}, Flat: true, Exact: true, Wf: true}
+	if c.Ax < 0 || c.Ay < 0 || c.Ax > 10 || c.Ay > 10 || (c.Ax > 0 && c.Ay > 0) {
+		return line{}, fmt.Errorf("stretch exponents %d, %d outside what the judge handles", c.Ax, c.Ay)
+	}
+	ln := line{K: "dt", U: 1 << (2 * c.Ax), V: 1 << (2 * c.Ay), Case: c.Id, N: len(c.Pts), Pts: c.Pts, Pos: [][]int{}, Tris: [][]int{}, Flat: true, Exact: true, Wf: true}
 	in := make([]vector2.Float64, len(c.Pts))
 	for i, p := range c.Pts {
-		x, err := c.to(p[0], c.J[0])
+		x, err := c.to(p[0], c.J[0], c.Ax)
 		if err != nil {
 			return ln, err
 		}
-		y, err := c.to(p[1], c.J[1])
+		y, err := c.to(p[1], c.J[1], c.Ay)
 		if err != nil {
 			return ln, err
 		}
@@ -115,8 +123,8 @@ func runOne(c Case) (line, error) {
 	pos := mesh.Float3Attribute(modeling.PositionAttribute)
 	for i := 0; i < pos.Len(); i++ {
 		p := pos.At(i)
-		x, okx := c.from(p.X(), c.J[0])
-		y, oky := c.from(p.Z(), c.J[1])
+		x, okx := c.from(p.X(), c.J[0], c.Ax)
+		y, oky := c.from(p.Z(), c.J[1], c.Ay)
 		if !okx || !oky {
 			ln.Exact = false
 		}
